@@ -1,47 +1,85 @@
-import GoMailModel.Eml.Params
-import GoMailModel.Mime.Render
-import GoMailModel.Proofs.Fold
-import GoMailModel.Proofs.Split
+import GoMailModel.Proofs.EmlRT
+import GoMailModel.Proofs.QP
 /-
   C10 — Render → parse → render preserves the message (PARTIAL).
-  Proved here: the hand-written header parameter parser of eml.go reads back what the message
-  writer emits for a body part header ("type; charset=cs"). The comparison of whole messages across
-  build → render → parse → render is carried by the harness run (field-by-field oracle and the
-  independent MIME reader); the EML body logic over net/mail / mime/multipart views is not modelled.
+
+  Modelled: the body logic of the EML parser (Eml/Body.lean: parseEMLBodyParts, parseEMLBodyPlain,
+  parseEMLMultipart, parseEMLAttachmentEmbed, message encoding and charset) over the standard
+  library's view of the input, compared with eml.go on every run (suite c10-eml-logic).
+
+  Proved: for every message within the parser's feature set and EVERY view of its rendering that has
+  the form `Eml.matchTop` describes, the body logic stores exactly the rendered body parts (type,
+  charset, encoding, content as the transfer decoder reads it), the embeds and the attachments (name,
+  bytes, kind, Content-ID), each list in the caller's order, and nothing else - whatever multipart
+  layers the writer used. That the REAL view of a REAL rendering has that form is evaluated by the
+  driver on every rendering of suite c10-eml-view (it is a statement about net/mail,
+  mime.ParseMediaType, mime/multipart and the transfer decoders, which are not modelled).
+
+  Not modelled: parseEMLHeaders (subject, addresses, date); the second rendering. Both are covered by
+  the field-by-field oracle of suite c10-roundtrip only.
 -/
 namespace GoMail.Props.C10
 open GoMail GoMail.Eml
-
-theorem splitEq2_at (k v : Bytes) (h : ∀ x ∈ k, x ≠ 61) : splitEq2 (k ++ 61 :: v) = [k, v] := by
-  induction k with
-  | nil => simp [splitEq2]
-  | cons x xs ih =>
-    have hx : (x == 61) = false := by simpa using h x (by simp)
-    simp only [List.cons_append, splitEq2, hx, Bool.false_eq_true, if_false]
-    rw [ih (fun y hy => h y (by simp [hy]))]
 
 /-- The writer emits `<type>; charset=<cs>` for every body part (msgWriter.writePart); the EML parser's
     parseMultiPartHeader recovers exactly the type and the charset from it, for every media type and
     charset string that does not itself contain ';'. -/
 theorem part_header_reads_back (ct cs : Bytes) (h1 : ∀ b ∈ ct, b ≠ 59) (h2 : ∀ b ∈ cs, b ≠ 59) :
-    parseMultiPartHeader (ct ++ sb "; charset=" ++ cs) = (ct, [(sb "charset", cs)]) := by
-  unfold parseMultiPartHeader splitOn
-  have e : ct ++ sb "; charset=" ++ cs = ct ++ 59 :: (sb " charset=" ++ cs) := by
-    simp [sb]
-  rw [e, splitOnAux_at_sep 59 [] ct _ h1]
-  have hrest : ∀ b ∈ sb " charset=" ++ cs, b ≠ 59 := by
-    intro b hb
-    rcases List.mem_append.mp hb with h | h
-    · have key : ∀ x ∈ sb " charset=", x ≠ 59 := by decide
-      exact key b h
-    · exact h2 b h
-  rw [splitOnAux_no_sep 59 [] _ hrest]
-  simp only [List.reverse_nil, List.nil_append, List.filterMap_cons, List.filterMap_nil]
-  have ht : trimLeftSp (sb " charset=" ++ cs) = sb "charset" ++ 61 :: cs := by
-    simp [trimLeftSp, sb, List.dropWhile]
-  rw [ht, splitEq2_at _ _ (by decide)]
+    parseMultiPartHeader (ct ++ sb "; charset=" ++ cs) = (ct, [(sb "charset", cs)]) :=
+  pmh_part ct cs h1 h2
 
 /-- non-vacuity -/
 example : parseMultiPartHeader (sb "text/plain; charset=UTF-8") = (sb "text/plain", [(sb "charset", sb "UTF-8")]) := by decide
+
+/-- **Parsing a rendering stores the message's content.** `s` any message state, `x` its entity tree
+    (`xtreeOf`: the three layer decisions regenerated from msg.go, parts / embeds / attachments in
+    order), `v` any view of the rendering of the form `matchTop` describes. Then the EML body logic
+    accepts, and the Msg it fills holds exactly: one part per rendered body part (same type, charset,
+    encoding label, content), one embed per embed and one attachment per attachment (sanitised name,
+    bytes, Content-ID), in the caller's order - for every number of parts and files, every content,
+    every nesting. -/
+theorem parse_stores_the_rendered_content (s : Mime.MsgState) (x : XEnt) (v : VEnt) (cs enc : Bytes)
+    (hx : xtreeOf s = some x) (hok : okTop x = true) (hm : matchTop x v = true) :
+    ∃ st, parseBody v { charset := cs, enc := enc } = .ok st ∧
+      st.parts = (keptParts s).map (fun p => storedPart (xPartOf s p)) ∧
+      st.embeds = s.embeds.map (fun f => storedFile (xFileOf s false f)) ∧
+      st.atts = s.attachments.map (fun f => storedFile (xFileOf s true f)) :=
+  parse_of_render s x v cs enc hx hok hm
+
+/-- ... where the stored content of a part or file is the caller's content, for quoted-printable with
+    its line breaks made CRLF (and exactly the content when it has CRLF line breaks only, `C01.qp_canon_lf`) -/
+theorem stored_content (enc content : Bytes) :
+    asRead enc content = if eqFold enc eQP then QP.canon false content else content := by
+  unfold asRead
+  split
+  · exact QP.roundtrip content
+  · rfl
+
+/-- the nesting does not matter to the parser: any tree of multipart/related and multipart/alternative
+    layers over the same leaves stores the same content (one iteration of the part loop per entity) -/
+theorem nested_layers_are_flattened (x : XEnt) (v : VEnt) (st : ESt) (hok : okEnt x = true) (hm : matchEnt x v = true) :
+    onePart v st = .ok (st.add (effects x)) :=
+  onePart_ent x v st hok hm
+
+/-- non-vacuity: a concrete two-part message with an attachment and the view of its rendering -/
+def exPart1 : XPart := { ctype := sb "text/plain", charset := sb "UTF-8", enc := sb "8bit", content := sb "hello" }
+def exPart2 : XPart := { ctype := sb "text/html", charset := sb "UTF-8", enc := sb "base64", content := sb "<b>hi</b>" }
+def exFile : XFile := { attach := true, name := sb "a.txt", enc := sb "base64", content := sb "data", cid := [] }
+def exTree : XEnt := .multi (sb "mixed") [.multi (sb "alternative") [.part exPart1, .part exPart2], .file exFile]
+def exMT (m : Bytes) (cs b : Option Bytes) : MT := { status := 0, mediatype := m, charset := cs, boundary := b }
+def exView : VEnt :=
+  .mk [sb "multipart/mixed; boundary=M"] [] [] [] (exMT (sb "multipart/mixed") none (some (sb "M"))) none (some (sb "...")) none none none
+    [ .mk [sb "multipart/alternative; boundary=A"] [] [] [] (exMT (sb "multipart/alternative") none (some (sb "A"))) none (some (sb "...")) none none none
+        [ .mk [sb "text/plain; charset=UTF-8"] [] [sb "8bit"] [] (exMT (sb "text/plain") (some (sb "UTF-8")) none) none (some (sb "hello")) none none none [] false,
+          .mk [sb "text/html; charset=UTF-8"] [] [sb "base64"] [] (exMT (sb "text/html") (some (sb "UTF-8")) none) none (some (sb "PGI+aGk8L2I+")) none none (some (sb "<b>hi</b>")) [] false ] true,
+      .mk [sb "text/plain; name=\"a.txt\""] [sb "attachment; filename=\"a.txt\""] [sb "base64"] [] (exMT (sb "text/plain") none none)
+        (some { mediatype := sb "attachment", filename := some (sb "a.txt"), decoded := some (sb "a.txt") }) (some (sb "ZGF0YQ==")) none (some (sb "data")) none [] false ] true
+
+example : okTop exTree = true ∧ matchTop exTree exView = true := by decide
+/-- ... so the theorem applies to it (the hypotheses are satisfiable); the harness evaluates the same
+    two predicates on the real view of every real rendering of suite c10-eml-view -/
+example : parseBody exView { charset := sb "UTF-8", enc := eQP } =
+    .ok (({ charset := sb "UTF-8", enc := eQP } : ESt).add (effectsL [.multi (sb "alternative") [.part exPart1, .part exPart2], .file exFile])) :=
+  parse_multipart_top (sb "mixed") _ exView _ (by decide) (by decide)
 
 end GoMail.Props.C10
